@@ -30,6 +30,7 @@ type PropMeta struct {
 	Outside     []string          `json:"outside"`
 	ValidateN   int               `json:"validate_n"`
 	AllocBound  int               `json:"alloc_bound"`
+	WorkBound   int               `json:"work_bound"`
 	AllocEventIsPanic bool        `json:"alloc_event_is_panic"`
 	NativeRace  bool              `json:"native_race"` // build the native replay binary with the race detector
 	SolverArgs  map[string][]string `json:"solver_args"`
@@ -171,6 +172,7 @@ func main() {
 		Tier: *tier, InitPkgs: hp, KnownIDs: knownIDs, SolverArgs: meta.SolverArgs, MaxDecisions: meta.MaxDecisions, Verbose: *verbose,
 		Configure: func(in *gosym.Interp) {
 			in.AllocBound = meta.AllocBound
+			in.WorkBound = meta.WorkBound
 			in.AllocEventIsPanic = meta.AllocEventIsPanic
 		}}
 	if cfg.MaxPathsPerHarness == 0 {
@@ -283,7 +285,11 @@ func main() {
 				} else {
 					replays++
 					var raw string
+					if v.Kind == "work" {
+						nb.Deadline = 20 * time.Second
+					}
 					outcome, raw, _ = nb.RunSingle(h.Name, gosym.ModelToAssign(v.Model), *tier)
+					nb.Deadline = 0
 					confirmed = confirms(v, outcome)
 					rec["native_outcome"] = outcome
 					if !confirmed {
@@ -446,6 +452,10 @@ func confirms(v *gosym.Violation, outcome string) bool {
 		return status == "panic" || status == "crash" || status == "timeout"
 	case "unwind":
 		return status == "timeout" || status == "crash"
+	case "work":
+		// unmetered work: the real build does not finish the operation within
+		// the replay deadline although the context is CPU-limited
+		return status == "timeout"
 	default:
 		label := v.Label
 		if i := strings.Index(label, "@"); i >= 0 {
